@@ -63,23 +63,40 @@ func newMWorld() *mWorld {
 	return &mWorld{Keys: map[string]*mKey{}, Sess: map[string]*mSess{}, secretForms: map[string]struct{}{}}
 }
 
-func permFromWord(s string) mperm {
+// permFromWord reads a permission word of a key entry: the documented words are
+// anyone, user and admin (or nothing). ok=false: not a documented word — the entry is
+// invalid and grants nothing. exact=false: a documented word in another letter case (the
+// documentation does not say whether case matters: the model abstains for that key).
+func permFromWord(s string) (p mperm, ok, exact bool) {
 	switch s {
 	case "", "anyone":
-		return mAnyone
+		return mAnyone, true, true
 	case "user":
-		return mUser
+		return mUser, true, true
 	case "admin":
-		return mAdmin
+		return mAdmin, true, true
 	}
-	return mNotSupported
+	switch strings.ToLower(s) {
+	case "anyone":
+		return mAnyone, true, false
+	case "user":
+		return mUser, true, false
+	case "admin":
+		return mAdmin, true, false
+	}
+	return 0, false, false
 }
 
 func (m *mWorld) setKeys(keys []cfgKey) {
 	m.Keys = map[string]*mKey{}
 	m.secretForms = map[string]struct{}{}
 	for _, k := range keys {
-		m.Keys[k.Key] = &mKey{Tok: mtoken{permFromWord(k.R), permFromWord(k.W)}, Expires: k.Expires, HasExp: k.HasExp}
+		r, ok1, ex1 := permFromWord(k.R)
+		w, ok2, ex2 := permFromWord(k.W)
+		if !ok1 || !ok2 {
+			continue // an entry with an undocumented permission word is not a configured key
+		}
+		m.Keys[k.Key] = &mKey{Tok: mtoken{r, w}, Expires: k.Expires, HasExp: k.HasExp, Flapping: !(ex1 && ex2)}
 		m.addSecretForms(k.Key)
 	}
 }
